@@ -87,3 +87,13 @@ Proof. exact hA_from_rows_nonvacuous. Qed.
 Print Assumptions C01_order_from_rows.
 Print Assumptions C01_ranking_from_rows.
 Print Assumptions C01_from_rows_nonvacuous.
+
+(** SOURCE TIE (tax engine).  What the two iterators handed to the accounting engine run over is re-read from
+    tax_engine._create_unfiltered_gain_and_loss_set on every run (Generated.gen_te_event_iter / gen_te_lot_iter), together
+    with the scan of the taxable events and the four branches of the loop; interpreted by Model/TaxEngineGen.v this is
+    [fractions_of]: the lots among which the method ranks are ALL acquisitions of the input, in time order. *)
+From RP2V Require Import Model.Txn Model.Pipeline Model.TaxEngineGen Proofs.TaxEngineGenProofs.
+Theorem C01_source_tie_tax_engine_wiring :
+  forall ar sched t, fractions_of_gen ar sched t = fractions_of ar sched t.
+Proof. exact fractions_of_gen_agrees. Qed.
+Print Assumptions C01_source_tie_tax_engine_wiring.
